@@ -77,6 +77,8 @@ FamilyProps(fam) ==
       [] fam = "bil" -> {"C20", "C13", "C06", "C08"}
       [] fam = "spl" -> {"C13", "C06", "C08"}
       [] fam = "out" -> {"C17", "C09"}
+      [] fam = "err" -> {"C19"}
+      [] fam = "errbuf" -> {"C19"}
       [] OTHER -> {}
 
 ----------------------------------------------------------------------------
@@ -178,11 +180,11 @@ CustomBuildViolations(ev, twoD, otherKinds, xb, yb) ==
 
 \* at most two reported conflicts per memo family and event (keeps every family visible)
 MemoViolations(confl, en) ==
-    LET fams == <<"obj", "out", "lin", "bil", "spl">>
+    LET fams == <<"obj", "out", "lin", "bil", "spl", "err", "errbuf">>
         perFam(f) == LET cs == SeqOfSet({k \in confl : k[1] = f})
                          n == IF Len(cs) > 2 THEN 2 ELSE Len(cs)
                      IN  [i \in 1..n |-> V(FamilyProps(f), "MEMO|" \o f \o "|" \o en, <<cs[i][2]>>)]
-    IN  perFam(fams[1]) \o perFam(fams[2]) \o perFam(fams[3]) \o perFam(fams[4]) \o perFam(fams[5])
+    IN  perFam(fams[1]) \o perFam(fams[2]) \o perFam(fams[3]) \o perFam(fams[4]) \o perFam(fams[5]) \o perFam(fams[6]) \o perFam(fams[7])
 
 ----------------------------------------------------------------------------
 \* Build events
@@ -402,7 +404,13 @@ DoQ1(ev) ==
         \* the outcome of a call is part of its answer: same interpolator, same query contents => same outcome,
         \* whatever the history, thread or entry point (calls with a wrongly shaped buffer are keyed apart)
         outPairs == {<<"out", <<ev.id, ev.q.v, bufOk>>, ev.out>>}
-        pairs == objPairs \cup famPairs \cup outPairs
+        \* C19: fast path and general path are indistinguishable also when a call fails: same error text and the same
+        \* cells of the caller's buffer written before the failure (key without the query dimension type)
+        errPairs == IF bufOk /\ ev.out = "Err:OutOfBounds" /\ ev.en \in {"array", "array_into"}
+                    THEN {<<"err", <<ev.id, ev.en, ev.q.s, ev.q.v>>, ev.em>>}
+                         \cup (IF isInto THEN {<<"errbuf", <<ev.id, ev.en, ev.q.s, ev.q.v>>, WindowContents(ev.buf)>>} ELSE {})
+                    ELSE {}
+        pairs == objPairs \cup famPairs \cup outPairs \cup errPairs
         confl == MemoConflicts(pairs)
         vMemo == MemoViolations(confl, ev.en)
         \* ---- buffer discipline (C14): cells outside the window untouched
@@ -561,7 +569,11 @@ DoQ2(ev) ==
                     ELSE {}
         famPairs == IF judgeEl THEN UNION {J[k].memo : k \in 1..N} ELSE {}
         outPairs == {<<"out", <<ev.id, ev.q.v, ev.q2.v, ev.q.s = ev.q2.s, bufOk>>, ev.out>>}
-        pairs == objPairs \cup famPairs \cup outPairs
+        errPairs == IF bufOk /\ sameShape /\ ev.out = "Err:OutOfBounds" /\ ev.en \in {"array", "array_into"}
+                    THEN {<<"err", <<ev.id, ev.en, ev.q.s, ev.q.v, ev.q2.v>>, ev.em>>}
+                         \cup (IF isInto THEN {<<"errbuf", <<ev.id, ev.en, ev.q.s, ev.q.v, ev.q2.v>>, WindowContents(ev.buf)>>} ELSE {})
+                    ELSE {}
+        pairs == objPairs \cup famPairs \cup outPairs \cup errPairs
         confl == MemoConflicts(pairs)
         vMemo == MemoViolations(confl, ev.en)
         vBuf == IF isInto /\ ev.out = "Ok" /\ bufOk /\ ~OutsideUntouched(ev.buf)
